@@ -40,7 +40,9 @@ REQUIRED_THEOREMS = [P + n for n in (
     'Yaql.Props.C11Gen.lazy_params', 'Yaql.Props.C11Gen.lazy_functions', 'Yaql.Props.C11Gen.lazy_keyword_spelling',
     'Yaql.Props.C11Gen.lazy_rows_cover', 'Yaql.Props.C11Gen.lazy_rows_every_convention'] + [
     'Yaql.Props.C11Spell.' + n for n in ('mapLoop_move', 'mapArgs_kw_move', 'mapArgs_kwd_keys', 'chooseOverload_single',
-                                         'lazy_spelling_invariant', 'lazy_spelling_invariant_of_table')]
+                                         'lazy_spelling_invariant', 'lazy_spelling_invariant_of_table', 'MoveOk.of_table',
+                                         'mappedOf_move', 'matchesOf_move', 'choose_move', 'stage_move',
+                                         'lazy_spelling_invariant_family')]
 TRUSTED = ['the expression generator and its bookkeeping of operand values (taken from separate real evaluations of the '
            'sub-expressions)', 'harness/gens/registry.py', 'harness/gens/lazyspell.py',
            'harness/c11spell.py (names and keyword aliases per convention, read from live contexts)']
@@ -1450,8 +1452,8 @@ def run_pipes(env, res, rng0, ctxs, hist, rp):
         specs_ = [rp['pipe']]
     else:
         specs_ = None
-    n = 2600 if tier == 'quick' else 25000
-    n_order = 220 if tier == 'quick' else 3000
+    n = 2600 if tier == 'quick' else 16000
+    n_order = 220 if tier == 'quick' else 2000
     tries = 0
     while (specs_ is None and len(todo) < n and tries < 4 * n) or (specs_ and tries < len(specs_)):
         tries += 1
@@ -1798,7 +1800,7 @@ def run_calls(env, res, hist, rp):
         if not rp.get('call'):
             return
         todo = [(rp['call'], call_case(rp['call'], ctx))]
-    n = 700 if tier == 'quick' else 8000
+    n = 700 if tier == 'quick' else 5000
     tries = 0
     while rp is None and len(todo) < n and tries < 4 * n:
         tries += 1
@@ -1839,7 +1841,7 @@ def run(env, res):
     tier = env['tier']
     rng = common.make_rng(env['seed'], 'C11')
     rp = None
-    n = 15000 if tier == 'quick' else 150000
+    n = 15000 if tier == 'quick' else 100000
     max_depth = 3 if tier == 'quick' else 4
     res.rule = ('typed random expressions of depth <= %d with a numbered probe in every operand position (operators, list/map '
                 'literals, indexer, method and keyword calls, library functions, every short-circuit function, def and assert '
@@ -1929,7 +1931,9 @@ LEVEL_TEXT = ('Lean 4: the evaluation log of the resolver model is one left-to-r
               'argument is bound to, not by its spelling: map_args binds the last positional argument and the same argument '
               'passed by keyword under the alias to the same parameter (C11Spell.mapArgs_kw_move), and for a lazy parameter '
               'the two calls have the same outcome - evaluation log and bound vector (C11Spell.lazy_spelling_invariant; '
-              'side conditions from the registry table: lazy_spelling_invariant_of_table); over the evaluation-order model: '
+              'side conditions from the registry table: lazy_spelling_invariant_of_table; for a whole family of overloads '
+              'that own the slot with a lazy parameter of that name: lazy_spelling_invariant_family); over the '
+              'evaluation-order model: '
               'eager_fragment_trace and the short_circuit_* theorems; C11Gen.lazy_params / lazy_functions re-prove on the '
               'regenerated registry that the lazy parameters are where the model assumes, C11Gen.lazy_keyword_spelling that '
               'every lazy parameter has an unambiguous keyword spelling under every naming convention; over the per-element '
@@ -1945,8 +1949,9 @@ LEVEL_TEXT = ('Lean 4: the evaluation log of the resolver model is one left-to-r
 LEVEL_NOTE = ('trusted: Lean kernel; Model/EvalOrder.lean, Resolve.lean; the generator\'s bookkeeping (operand truthiness '
               'taken from separate real evaluations); Model/PerElem.lean and the harness\'s eager table of per-element facts; '
               'the lazy transcription RefEval as the reference for the per-element clause; harness/c11spell.py (aliases read '
-              'from live contexts). lazy_spelling_invariant is for one definition in the family and the last positional '
-              'argument (with overloads, map_args does not type-check keywords of named parameters, so the candidate set can '
-              'depend on the spelling: notes/C12.md).')
+              'from live contexts). lazy_spelling_invariant_family asks every visible candidate to own the moved slot with a '
+              'lazy parameter of the keyword\'s name (without that, map_args - which does not type-check keywords of named '
+              'parameters - can keep a candidate in one spelling that it drops in the other: example in C11Spell, notes/C12.md); '
+              'the last positional argument is moved (a suffix of arguments is the iteration).')
 TECHNIQUE = 'Lean 4 proof + generated registry facts + differential trace comparison with numbered probes'
 DESIGN_REF = 'DESIGN.md section 5, C11'
